@@ -14,7 +14,7 @@ package raft
 
 //@ ghost field task.greplied int
 
-//@ func (*task).reply
+//@ func (*task).reply params(t, result)
 //@   trusted
 //@   nilable t
 //@   modifies t.result, t.greplied
@@ -23,7 +23,7 @@ package raft
 // ---------------------------------------------------------------------------
 // onSnapReq (C09, C12)
 
-//@ func (*stateMachine).onSnapReq
+//@ func (*stateMachine).onSnapReq params(fsm, t)
 //@   props C09 C12 C19
 //@   requires fsm.FSM != nil && fsm.snaps != nil && t.task != nil
 //@   modifies t.task.result, t.task.greplied
@@ -54,7 +54,7 @@ package raft
 
 // trusted abstract view of log.Log.Get (verified in the log package as C13.get-entry /
 // C13.get-notfound): found iff gprev < i; the bytes returned are the stored entry i.
-//@ view (*log.Log).Get
+//@ view (*log.Log).Get params(l, i)
 //@   requires [C13.get-range] i <= l.glast
 //@   ensures (result1 != nil) == (i <= l.gprev)
 //@   ensures result1 == nil ==> bIdx(arrof(result0), base(result0)) == l.geidx[i] && bTerm(arrof(result0), base(result0)) == l.geterm[i] && bTyp(arrof(result0), base(result0)) == l.getyp[i]
@@ -68,7 +68,7 @@ package raft
 // STUB (outside area fsm) -- same text as in the leader area
 //@ ghost field newEntry.gpos int
 //@ pure IsLog(t entryType) bool = t != entryRead && t != entryDirtyRead && t != entryBarrier
-//@ func (*entry).isLogEntry
+//@ func (*entry).isLogEntry params(e)
 //@   ensures result0 == IsLog(e.typ)
 
 // Channel invariant of fsm.ch for an fsmApply message (DESIGN 2.5), assumed as precondition:
@@ -107,7 +107,7 @@ package raft
 //@ pure LogNodeAt(x *newEntry, i uint64, t uint64) bool = IsLog(x.typ) && x.index == i && x.term == t
 
 //@ pure EntSame(e *entry) bool = *e == old(*e)
-//@ func (*stateMachine).onApply
+//@ func (*stateMachine).onApply params(fsm, t)
 //@   props C03 C04 C19
 //@   nilable t.neHead
 //@   requires fsm.FSM != nil
@@ -161,10 +161,10 @@ package raft
 //@ ghost field File.gpath uint64
 //@ ghost field File.gwr bool
 
-//@ func metaFile
+//@ func metaFile params(dir, index)
 //@   trusted
 //@   ensures result0 == mfile(dir, index)
-//@ func snapFile
+//@ func snapFile params(dir, index)
 //@   trusted
 //@   ensures result0 == sfile(dir, index)
 
@@ -238,18 +238,18 @@ package raft
 //@ pure LabelAt(p uint64, i uint64, t uint64, ci uint64, ct uint64, sz int) bool = lIdx[p] == i && lTerm[p] == t && lCfgIdx[p] == ci && lCfgTerm[p] == ct && lSize[p] == sz
 //@ pure LabelSame(p uint64) bool = lIdx[p] == old(lIdx[p]) && lTerm[p] == old(lTerm[p]) && lCfgIdx[p] == old(lCfgIdx[p]) && lCfgTerm[p] == old(lCfgTerm[p]) && lSize[p] == old(lSize[p])
 // (abstract label-level views for the two callers, T-abs; the byte-level contracts are proved in verif_contracts_codecs2.go)
-//@ view (*snapshotMeta).encode at (*snapshotSink).done
+//@ view (*snapshotMeta).encode at (*snapshotSink).done params(m, w)
 //@   modifies lIdx, lTerm, lCfgIdx, lCfgTerm, lSize
 //@   ensures result0 == nil && istype(w, *os.File) ==> LabelAt(as(w, *os.File).gpath, m.index, m.term, m.config.Index, m.config.Term, m.size)
 //@   ensures istype(w, *os.File) ==> forall(p, p != as(w, *os.File).gpath ==> LabelSame(p))
-//@ view (*snapshotMeta).decode at (*snapshots).meta
+//@ view (*snapshotMeta).decode at (*snapshots).meta params(m, r)
 //@   modifies all(m)
 //@   ensures result0 == nil && istype(r, *os.File) ==> LabelAt(as(r, *os.File).gpath, m.index, m.term, m.config.Index, m.config.Term, m.size)
 
 // ---------------------------------------------------------------------------
 // snapshots.go
 
-//@ func (*snapshots).new
+//@ func (*snapshots).new params(s, index, term, config)
 //@   props C10 C12
 //@   requires [C10.snapshot-publish] PubInv(s.dir) && !fs[mfile(s.dir, index)]
 //@   modifies fs, fdone, fsize
@@ -265,14 +265,14 @@ package raft
 //@ pure UsedOK(s *snapshots) bool = s.used != nil && forall(k, 0 <= s.used[k] && s.used[k] < 4611686018427387904)
 //@ pure SnapsInv(s *snapshots) bool = UsedOK(s) && (s.index == 0 ==> s.term == 0) && (s.index != 0 ==> fs[mfile(s.dir, s.index)] && lIdx[mfile(s.dir, s.index)] == s.index && lTerm[mfile(s.dir, s.index)] == s.term)
 
-//@ func (*snapshots).meta
+//@ func (*snapshots).meta params(s)
 //@   modifies fdone, fsize
 //@   ensures [C12.meta-read] result1 == nil && s.index != 0 ==> LabelAt(mfile(s.dir, s.index), result0.index, result0.term, result0.config.Index, result0.config.Term, result0.size)
 //@   ensures s.index == 0 ==> result1 == nil && result0.index == 0 && result0.term == 0 && result0.config.Index == 0 && result0.config.Term == 0 && result0.config.Nodes == nil
 //@   ensures [C10.meta-exists] result1 == nil && s.index != 0 ==> fs[mfile(s.dir, s.index)]
 //@   ensures forall(p, fdone[p] == old(fdone[p]) && fsize[p] == old(fsize[p]))
 
-//@ func (*snapshots).open
+//@ func (*snapshots).open params(s)
 //@   props C10 C12
 //@   requires UsedOK(s)
 //@   modifies contents(s.used), fdone, fsize
@@ -284,7 +284,7 @@ package raft
 //@   ensures result1 != nil ==> result0 == nil && forall(k, s.used[k] == old(s.used[k]))
 //@   ensures forall(p, fdone[p] == old(fdone[p]) && fsize[p] == old(fsize[p]))
 
-//@ func (*snapshot).release
+//@ func (*snapshot).release params(s)
 //@   requires s.snaps != nil && s.snaps.used != nil && forall(k, s.snaps.used[k] <= 4611686018427387904) && s.file != nil && !s.file.gwr
 //@   requires [C09.release-pinned] s.snaps.used[s.meta.index] >= 1
 //@   modifies contents(s.snaps.used), fdone, fsize
@@ -307,7 +307,7 @@ package raft
 //@   modifies grest, grestFail
 //@   ensures grest == old(grest) + 1 && grestFail == (result0 != nil)
 
-//@ func (*stateMachine).onRestoreReq
+//@ func (*stateMachine).onRestoreReq params(fsm)
 //@   props C03
 //@   requires fsm.FSM != nil && fsm.snaps != nil && SnapsInv(fsm.snaps)
 //@   modifies fsm.index, fsm.term, contents(fsm.snaps.used), fdone, fsize, grest, grestFail
@@ -356,7 +356,7 @@ package raft
 //@   ensures result1 == nil ==> result0 == gparse(s)
 //@   ensures gisnum(s) ==> result1 == nil
 
-//@ func findSnapshots
+//@ func findSnapshots params(dir)
 //@   props C09 C10 C19
 //@   modifies sortgen
 //@   ensures [C09.snapshots-exist] result1 == nil ==> forall(k, 0 <= k && k < len(result0) ==> fs[mfile(dir, result0[k])])
@@ -368,7 +368,7 @@ package raft
 //@   loop 1 invariant forall(k, 0 <= k && k < len(snaps) ==> raw(matches, k) == mfile(dir, raw(snaps, k)))
 
 //@ pure RemovedOK(s *snapshots, p uint64, top uint64) bool = fs[p] != old(fs[p]) ==> !fs[p] && (p == mfile(s.dir, pidx(p)) || p == sfile(s.dir, pidx(p))) && s.used[pidx(p)] == 0 && (s.retain >= 1 ==> pidx(p) < top)
-//@ func (*snapshots).applyRetain
+//@ func (*snapshots).applyRetain params(s)
 //@   props C09 C10
 //@   requires s.used != nil
 //@   requires [C10.snapshot-publish] PubInv(s.dir)
@@ -382,7 +382,7 @@ package raft
 //@   loop 1 invariant PubInv(s.dir) && forall(p, RemovedOK(s, p, snaps[0]))
 
 //@ pure TmpFile(s *snapshots) uint64 = pjoin(s.dir, "meta.tmp")
-//@ func (*snapshotSink).done
+//@ func (*snapshotSink).done params(s, err)
 //@   props C10 C12
 //@   requires s.snaps != nil && s.snaps.used != nil && s.file != nil && s.file.gwr && s.file.gpath == sfile(s.snaps.dir, s.meta.index)
 //@   requires [C10.snapshot-publish] PubInv(s.snaps.dir) && !fs[mfile(s.snaps.dir, s.meta.index)]
@@ -407,9 +407,9 @@ package raft
 // STUB (outside area fsm)
 //@ func newTask
 //@   ensures result0 != nil && isfresh(result0) && result0.result == nil
-//@ func (*task).Err
+//@ func (*task).Err params(t)
 //@   inline
-//@ func (*task).Result
+//@ func (*task).Result params(t)
 //@   inline
 
 // Goroutine boundary (T-go): waiting on t.done is where the reply written by the serving goroutine
@@ -423,7 +423,7 @@ package raft
 //@ ghost var gsnapIdx uint64
 //@ ghost var gsnapTerm uint64
 //@ pure SnapReply(t *task) bool = (istype(t.result, fsmSnapResp) || istype(t.result, plainError) || istype(t.result, OpError)) && (istype(t.result, OpError) ==> as(t.result, OpError).Err != nil) && (istype(t.result, fsmSnapResp) ==> as(t.result, fsmSnapResp).state != nil && as(t.result, fsmSnapResp).index == gsnapIdx && as(t.result, fsmSnapResp).term == gsnapTerm)
-//@ func (*task).Done
+//@ func (*task).Done params(t)
 //@   trusted
 //@   modifies t.result
 //@   ensures [PA-ch.snap-reply] gwaitSnap ==> SnapReply(t)
@@ -438,7 +438,7 @@ package raft
 //@ ghost func cfgIdxAt(uint64) uint64
 //@ ghost var greqCommit uint64
 
-//@ func doTakeSnapshot
+//@ func doTakeSnapshot params(fsm, index, config)
 //@   props C12 C09
 //@   requires [PA-ch.snap-reply] gwaitSnap
 //@   requires fsm.snaps != nil && fsm.snaps.used != nil && fsm.snaps.retain >= 1
@@ -458,7 +458,7 @@ package raft
 // The goroutine started here is not executed by the engine (T-go): the arguments it receives
 // (r.snaps.index + t.threshold, r.configs.Committed -- both read at REQUEST time) are therefore not
 // observable in a postcondition; see C12.membership of doTakeSnapshot.
-//@ func (*Raft).onTakeSnapshot
+//@ func (*Raft).onTakeSnapshot params(r, t)
 //@   props C08 C09 C12 C19
 // what the snapshot goroutine is started with is observable (goarg): the minimum index the FSM must have
 // reached and the COMMITTED configuration as the label's membership (C12, C19)
@@ -474,34 +474,34 @@ package raft
 // trusted abstract views of the log API (verified / to be verified in the log package: C13.contains,
 // C09.canlte, C09.removelte): CanLTE returns PrevIndex or a segment boundary <= i; RemoveLTE leaves
 // PrevIndex at such a boundary and never touches the entries above it.
-//@ view (*log.Log).Contains
+//@ view (*log.Log).Contains params(l, i)
 //@   ensures result0 == (i > l.gprev && i <= l.glast)
 // CanLTE is one scan of the segment list, so on an unchanged log it is monotone in its argument
 // (T-abs.canlte-monotone): gcan(log, prev, last, i) names its value for a log object in the state identified by
 // (prev, last). Its only two calls are adjacent in onSnapshotTaken, with no log operation between them.
 //@ ghost func gcan(uint64, uint64, uint64, uint64) uint64
 //@ axiom [T-abs.canlte-monotone] forall(o, p, la, i, j, i <= j ==> gcan(o, p, la, i) <= gcan(o, p, la, j))
-//@ view (*log.Log).CanLTE
+//@ view (*log.Log).CanLTE params(l, i)
 //@   ensures result0 >= l.gprev && result0 <= l.glast && (result0 > l.gprev ==> result0 <= i)
 //@   ensures result0 == gcan(ref(l), l.gprev, l.glast, i)
-//@ view (*log.Log).RemoveLTE
+//@ view (*log.Log).RemoveLTE params(l, i)
 //@   modifies l.gprev
 //@   ensures l.gprev >= old(l.gprev) && l.gprev <= l.glast && (l.gprev > old(l.gprev) ==> l.gprev <= i)
 
 // STUB (outside area fsm): storage.go
-//@ func (*storage).removeLTE
+//@ func (*storage).removeLTE params(s, index)
 //@   requires s.log != nil
 //@   modifies s.log.gprev
 //@   ensures [C09.removelte] s.log.gprev >= old(s.log.gprev) && s.log.gprev <= s.log.glast && (s.log.gprev > old(s.log.gprev) ==> s.log.gprev <= index)
 //@   ensures result0 != nil ==> istype(result0, OpError)
-//@ func (*Raft).compactLog
+//@ func (*Raft).compactLog params(r, lte)
 //@   requires RaftWF(r) && r.log != nil
 //@   requires [C09.compact-bound] lte <= r.snaps.index
 //@   modifies r.storage.log.gprev
 //@   ensures [C09.removelte] r.log.gprev >= old(r.log.gprev) && r.log.gprev <= r.log.glast && (r.log.gprev > old(r.log.gprev) ==> r.log.gprev <= lte)
 
 // STUB (outside area fsm): leader.go. The view handed to the replications must exist.
-//@ func (*leader).notifyFlr
+//@ func (*leader).notifyFlr params(l, includeConfig)
 //@   trusted
 //@   requires l.Raft != nil && l.storage != nil && l.log != nil
 //@   requires [C09.notify-view-valid] l.log.gprev <= l.removeLTE && l.removeLTE <= l.lastLogIndex && l.lastLogIndex <= l.log.glast
@@ -518,7 +518,7 @@ package raft
 //@ pure ReplMatch(x *replication) uint64 = x.status.matchIndex
 //@ pure ReplsOK(l *leader) bool = forall(k, has(l.repls, k) ==> l.repls[k] != nil)
 
-//@ func (*Raft).onSnapshotTaken
+//@ func (*Raft).onSnapshotTaken params(r, t)
 //@   props C09 C19
 //@   requires RaftWF(r) && r.log != nil && r.ldr != nil && r.ldr.Raft == r && ReplsOK(r.ldr) && t.req.task != nil && r.snaps != nil
 //@   requires r.log.glast == r.lastLogIndex
@@ -547,7 +547,7 @@ package raft
 //   publishes; see the report: needs os.Rename to carry file contents)
 //@ pure DiskLabelInv(d string) bool = forall(i, fs[mfile(d, i)] ==> lIdx[mfile(d, i)] == i)
 
-//@ func openSnapshots
+//@ func openSnapshots params(dir, opt)
 //@   props C10 C12
 //@   modifies fdone, fsize, sortgen
 //@   ensures result1 != nil ==> result0 == nil
@@ -557,25 +557,25 @@ package raft
 //@   ensures [C12.reopen-label] result1 == nil && DiskLabelInv(dir) ==> SnapsInv(result0)
 //@   ensures forall(p, fdone[p] == old(fdone[p]) && fsize[p] == old(fsize[p]))
 
-//@ func (*snapshots).latest
+//@ func (*snapshots).latest params(s)
 //@   ensures result0 == s.index && result1 == s.term
 
 // ---------------------------------------------------------------------------
 // shutdown of the state loop (C15): open connections are closed and a snapshot that is still being
 // taken is waited for, so that the task that asked for it is answered (by onSnapshotTaken, C15.reply-once)
 //@ ghost var gsnapHandled bool
-//@ view (*Raft).onSnapshotTaken at (*Raft).release
+//@ view (*Raft).onSnapshotTaken at (*Raft).release params(r, t)
 //@   modifies r.snapTakenCh, gsnapHandled, task.result, task.greplied, log.Log.gprev, leader.removeLTE
 //@   ensures r.snapTakenCh == nil && gsnapHandled
 
 //@ pure ConnsOK(pool *connPool) bool = forall(p, base(pool.conns) <= p && p < base(pool.conns) + len(pool.conns) ==> raw(pool.conns, p) != nil && raw(pool.conns, p).rwc != nil)
-//@ func (*connPool).closeAll
+//@ func (*connPool).closeAll params(pool)
 //@   requires [C15.pool-conns-valid] ConnsOK(pool)
 //@   modifies pool.conns
 //@   ensures [C15.pool-emptied] pool.conns == nil
 //@   loop 1 invariant -1 <= rangeindex && rangeindex < len(pool.conns) && ConnsOK(pool) && pool.conns == old(pool.conns)
 
-//@ func (*Raft).release
+//@ func (*Raft).release params(r)
 //@   requires r.storage != nil && PoolsInv(r) && !gsnapHandled
 //@   requires [C15.pool-conns-valid] forall(k, has(r.connPools, k) ==> ConnsOK(r.connPools[k]))
 //@   modifies connPool.conns, r.snapTakenCh, gsnapHandled, task.result, task.greplied, log.Log.gprev, leader.removeLTE
